@@ -56,6 +56,27 @@ func TestResolver_NewResolver(t *testing.T) {
 	assert.NotNil(t, resolver.HttpClient)
 }
 
+func Test_sameOriginRedirect(t *testing.T) {
+	newRequest := func(target string) *http.Request {
+		result, err := http.NewRequest(http.MethodGet, target, nil)
+		require.NoError(t, err)
+		return result
+	}
+	via := []*http.Request{newRequest("https://example.com/iam/1/did.json")}
+	t.Run("same origin", func(t *testing.T) {
+		assert.NoError(t, sameOriginRedirect(newRequest("https://example.com/other/did.json"), via))
+	})
+	t.Run("other host", func(t *testing.T) {
+		assert.ErrorContains(t, sameOriginRedirect(newRequest("https://other.example.com/iam/1/did.json"), via), "redirect to other origin is not allowed")
+	})
+	t.Run("other port", func(t *testing.T) {
+		assert.ErrorContains(t, sameOriginRedirect(newRequest("https://example.com:8443/iam/1/did.json"), via), "redirect to other origin is not allowed")
+	})
+	t.Run("other scheme", func(t *testing.T) {
+		assert.ErrorContains(t, sameOriginRedirect(newRequest("http://example.com/iam/1/did.json"), via), "redirect to other origin is not allowed")
+	})
+}
+
 func TestResolver_Resolve(t *testing.T) {
 	var baseDID did.DID
 	tlsServer := http2.TestTLSServer(t, http.HandlerFunc(func(writer http.ResponseWriter, request *http.Request) {
